@@ -34,7 +34,10 @@ impl Container {
             .copied()
             .unwrap_or(self.src.len());
 
-        let mut src = &self.src[..end];
+        let mut src = self
+            .src
+            .get(..end)
+            .ok_or_else(|| invalid_landmark_error(end))?;
 
         read_compression_header(&mut src)
     }
@@ -49,13 +52,26 @@ impl Container {
                 let start = landmarks[i];
                 i += 1;
                 let end = landmarks.get(i).copied().unwrap_or(self.src.len());
-                let mut src = &self.src[start..end];
-                Some(read_slice(&mut src))
+
+                let result = self
+                    .src
+                    .get(start..end)
+                    .ok_or_else(|| invalid_landmark_error(start.max(end)))
+                    .and_then(|mut src| read_slice(&mut src));
+
+                Some(result)
             } else {
                 None
             }
         })
     }
+}
+
+fn invalid_landmark_error(landmark: usize) -> io::Error {
+    io::Error::new(
+        io::ErrorKind::InvalidData,
+        format!("invalid landmark: {landmark}"),
+    )
 }
 
 pub fn read_container<R>(reader: &mut R, container: &mut Container) -> io::Result<usize>
@@ -88,6 +104,27 @@ mod tests {
         0x00, 0x00, 0x01, 0x00, 0x05, 0xbd, 0xd9, 0x4f, 0x00, 0x01, 0x00, 0x06, 0x06, 0x01, 0x00,
         0x01, 0x00, 0x01, 0x00, 0xee, 0x63, 0x01, 0x4b,
     ];
+
+    #[test]
+    fn test_container_with_invalid_landmarks() {
+        let container = Container {
+            header: Header {
+                landmarks: vec![8, 13],
+                ..Default::default()
+            },
+            src: vec![0; 5],
+        };
+
+        assert!(matches!(
+            container.compression_header(),
+            Err(e) if e.kind() == io::ErrorKind::InvalidData
+        ));
+
+        assert!(container.slices().all(|result| matches!(
+            result,
+            Err(e) if e.kind() == io::ErrorKind::InvalidData
+        )));
+    }
 
     #[test]
     fn test_read_container_with_eof_container() -> io::Result<()> {
